@@ -86,6 +86,9 @@ def run_streams(chk, rng, fns, cells, pid):
         chk.count(("corpus", cf.name), nontrivial=True)
         chk.tally("corpus_cases")
         bad = safety.classify(res)
+        f = c["case_line"].split("|")[0].split()
+        if not bad and res.ret == 1 and f[1] not in "CD" and not (0 <= res.inlen <= int(f[3]) and 0 <= res.outlen <= int(f[4])):
+            bad = ("lengths-out-of-range", "reported lengths (%d,%d) exceed the supplied (%s,%s)" % (res.inlen, res.outlen, f[3], f[4]))
         if bad:
             chk.violation(bad[0], "corpus case %s: %s" % (cf.name, bad[1]), dict(table_list=c["table_list"], case_line=c["case_line"], impl=list(res.crash) if res.crash else res.raw))
         else:
